@@ -4,14 +4,14 @@
 //! step with a plain reference model. `Pie` is not `Clone`, so every transition `(state, op)` is executed by replaying
 //! the representative operation path of `state` on a fresh `Pie` and then applying `op`.
 //!
-//! * State = model state = for each resource type in {K1, K2, K3, RA, RB, T1, T2} what is stored in pie's typed state for
+//! * State = model state = for each resource type in {K1, K2, K3, RA, RB, T1, T2, O} what is stored in pie's typed state for
 //!   that resource type: nothing, `Shared(u8)`, `Other(bool)` or a map of some key type. The global map of key type
 //!   `K` IS the state of resource type `K` (`HashMap<K, K::Value>`), so e.g. `set::<Other>` on K1's state wipes K1's
 //!   map and the next map access of K1 replaces `Other` by an empty map (documented behaviour of
 //!   `get_or_set_default`); the model follows that faithfully. (This fixed array is the
 //!   `Map<ResourceType, Option<(StateType, value)>>` + "one plain map per key type" of the design.)
 //! * The implementation's state is fully observable without side effects (`get_boxed` + downcasts, `get::<S>` for all
-//!   seven state types on all seven resource types) and is compared with the model after the last operation of every
+//!   eight state types on all eight resource types) and is compared with the model after the last operation of every
 //!   executed path; where the model says a key type's state is a map, all keys are additionally read through
 //!   `Resource::read`, `MapWriter::get`, `GetGlobalMap`, stamped through the three stamping routes (`stamp` with the
 //!   resource state, `stamp_reader`, `stamp_writer`), and `MapEqualsChecker::check` is evaluated against every stamp
@@ -34,10 +34,17 @@
 //!   names are equal (if a compiler ever names them differently this is recorded in the evidence; nothing fails).
 //!   Anything that identifies resource types by name instead of by type makes them share one slot, which shows as state
 //!   of one being visible through / replaced by accesses for the other.
-//! * Two searches are run, with different operation alphabets ("families"): `main` (K1, K2, K3 maps; typed state on
+//! * O is the trait-object key type `MapKeyObjToObj`. It has two logical keys of DIFFERENT key types (`7u8` and the
+//!   genuinely boxed `Box::new(7u8)`); a key index of the alphabet is `logical key + 2 * constructor`, over six public
+//!   ways of building the key (inherent `from`, `new`, `From<Box<K>>`, `From<Box<dyn KeyObj>>`, the public tuple
+//!   field, `clone`). Oracle: keys built from equal (key type, value) by different constructors are equal, hash equal
+//!   and address the same slot (every write route through one, every read/stamp/check through every other); keys of
+//!   different key types or values never alias (eight never-written keys are probed at every step, and the map must
+//!   hold nothing but the model's entries).
+//! * Three searches are run, with different operation alphabets ("families"): `objkeys` (all of O), `main` (K1, K2, K3 maps; typed state on
 //!   RA, RB, K1) and `twins` (the full map + typed-state alphabet on T1 and T2, with one key of K1 and `Shared` on RA as
-//!   bystanders). The explored space is the sum, not the product, of the two: interference between resource types is
-//!   pairwise and every pair of kinds occurs within one family. Every step of both observes all seven resource types.
+//!   bystanders). The explored space is the sum, not the product, of the three: interference between resource types is
+//!   pairwise and every pair of kinds occurs within one family. Every step of each observes all eight resource types.
 //! * The dependency store of pie is hidden state that the model state does not contain (which `KeyTask`s exist). To
 //!   cover it, besides the BFS to a fixed point over model states, ALL operation paths up to a small depth are executed
 //!   without any state merging.
@@ -54,7 +61,7 @@ use std::time::Instant;
 
 use serde_json::{json, Value};
 
-use pie::resource::map::{GetGlobalMap, MapEqualsChecker, MapKey, MapWriter};
+use pie::resource::map::{GetGlobalMap, MapEqualsChecker, MapKey, MapKeyObjToObj, MapValueObj, MapWriter};
 use pie::tracker::Tracker;
 use pie::trait_object::{KeyObj, ValueObj};
 use pie::{Context, Pie, Resource, ResourceChecker, ResourceState, Task};
@@ -67,26 +74,29 @@ use crate::common::{engine_error, Args, Report, Tier, Violation};
 
 /// Key types of the map resource.
 #[derive(Clone, Copy, PartialEq, Eq, Hash, PartialOrd, Ord, Debug)]
-pub enum KT { K1, K2, K3, T1, T2 }
+pub enum KT { K1, K2, K3, T1, T2, O }
 
 /// Resource types whose typed state is modelled.
 #[derive(Clone, Copy, PartialEq, Eq, Hash, PartialOrd, Ord, Debug)]
-pub enum Res { K1, K2, K3, RA, RB, T1, T2 }
+pub enum Res { K1, K2, K3, RA, RB, T1, T2, O }
 
-pub const N_RES: usize = 7;
-pub const ALL_RES: [Res; N_RES] = [Res::K1, Res::K2, Res::K3, Res::RA, Res::RB, Res::T1, Res::T2];
-pub const ALL_KT: [KT; 5] = [KT::K1, KT::K2, KT::K3, KT::T1, KT::T2];
+pub const N_RES: usize = 8;
+pub const ALL_RES: [Res; N_RES] = [Res::K1, Res::K2, Res::K3, Res::RA, Res::RB, Res::T1, Res::T2, Res::O];
+pub const ALL_KT: [KT; 6] = [KT::K1, KT::K2, KT::K3, KT::T1, KT::T2, KT::O];
 
 impl KT {
-  pub fn res(self) -> Res { match self { KT::K1 => Res::K1, KT::K2 => Res::K2, KT::K3 => Res::K3, KT::T1 => Res::T1, KT::T2 => Res::T2 } }
-  fn name(self) -> &'static str { match self { KT::K1 => "K1", KT::K2 => "K2", KT::K3 => "K3", KT::T1 => "T1", KT::T2 => "T2" } }
+  pub fn res(self) -> Res { match self { KT::K1 => Res::K1, KT::K2 => Res::K2, KT::K3 => Res::K3, KT::T1 => Res::T1, KT::T2 => Res::T2, KT::O => Res::O } }
+  fn name(self) -> &'static str { match self { KT::K1 => "K1", KT::K2 => "K2", KT::K3 => "K3", KT::T1 => "T1", KT::T2 => "T2", KT::O => "O" } }
+  /// Number of key indices of the operation alphabet. For `O` (= `MapKeyObjToObj`) a key index is
+  /// `logical key + 2 * constructor`; all other key types have exactly their two logical keys.
+  pub fn n_keys(self) -> u8 { if self == KT::O { 2 * N_OBJ_CTORS } else { 2 } }
   /// Position of `HashMap<K, K::Value>` in the list of state types probed by `typed_gets`.
-  fn typed_pos(self) -> usize { match self { KT::K1 => 2, KT::K2 => 3, KT::K3 => 4, KT::T1 => 5, KT::T2 => 6 } }
+  fn typed_pos(self) -> usize { match self { KT::K1 => 2, KT::K2 => 3, KT::K3 => 4, KT::T1 => 5, KT::T2 => 6, KT::O => 7 } }
 }
 
 impl Res {
   fn idx(self) -> usize { self as usize }
-  fn name(self) -> &'static str { match self { Res::K1 => "K1", Res::K2 => "K2", Res::K3 => "K3", Res::RA => "RA", Res::RB => "RB", Res::T1 => "T1", Res::T2 => "T2" } }
+  fn name(self) -> &'static str { match self { Res::K1 => "K1", Res::K2 => "K2", Res::K3 => "K3", Res::RA => "RA", Res::RB => "RB", Res::T1 => "T1", Res::T2 => "T2", Res::O => "O" } }
 }
 
 /// State types used by typed state accesses. `M1` = `HashMap<K1, u8>`, i.e. the type of K1's global map.
@@ -232,23 +242,24 @@ impl Op {
 
   pub fn parse(s: &str) -> Option<Op> {
     let p: Vec<&str> = s.split(':').collect();
-    let kt = |x: &str| match x { "K1" => Some(KT::K1), "K2" => Some(KT::K2), "K3" => Some(KT::K3), "T1" => Some(KT::T1), "T2" => Some(KT::T2), _ => None };
+    let kt = |x: &str| match x { "K1" => Some(KT::K1), "K2" => Some(KT::K2), "K3" => Some(KT::K3), "T1" => Some(KT::T1), "T2" => Some(KT::T2), "O" => Some(KT::O), _ => None };
+    let key_of = |kt: KT, x: &str| x.parse::<u8>().ok().filter(|k| *k < kt.n_keys() && x == k.to_string());
     let bit = |x: &str| match x { "0" => Some(0u8), "1" => Some(1u8), _ => None };
     match p.as_slice() {
       ["map", k, key, r, m, o, v] => {
         let route = match *r { "ctx_write" => WRoute::CtxWrite, "create_writer" => WRoute::CreateWriter, "global_map" => WRoute::GlobalMap, "res_write" => WRoute::ResWrite, _ => return None };
         let op = match *o { "insert" => MapOp::Insert(bit(v)?), "remove" => MapOp::Remove, "or_insert" => MapOp::OrInsert(bit(v)?), _ => return None };
-        Some(Op::Map { kt: kt(k)?, key: bit(key)?, route, bottom_up: *m == "bu", op })
+        Some(Op::Map { kt: kt(k)?, key: key_of(kt(k)?, key)?, route, bottom_up: *m == "bu", op })
       }
       ["read", k, key, r, m] => {
         let route = match *r {
           "ctx_read" => RRoute::CtxRead, "task_writer_get" => RRoute::TaskWriterGet, "global_map" => RRoute::GlobalMap, "global_map_mut" => RRoute::GlobalMapMut,
           "res_read" => RRoute::ResRead, "res_write" => RRoute::ResWrite, "stamp" => RRoute::Stamp, "check" => RRoute::Check, _ => return None,
         };
-        Some(Op::Read { kt: kt(k)?, key: bit(key)?, route, bottom_up: *m == "bu" })
+        Some(Op::Read { kt: kt(k)?, key: key_of(kt(k)?, key)?, route, bottom_up: *m == "bu" })
       }
       ["typed", r, s, o, v] => {
-        let res = match *r { "K1" => Res::K1, "K2" => Res::K2, "K3" => Res::K3, "RA" => Res::RA, "RB" => Res::RB, "T1" => Res::T1, "T2" => Res::T2, _ => return None };
+        let res = match *r { "K1" => Res::K1, "K2" => Res::K2, "K3" => Res::K3, "RA" => Res::RA, "RB" => Res::RB, "T1" => Res::T1, "T2" => Res::T2, "O" => Res::O, _ => return None };
         let st = match *s { "Shared" => ST::Shared, "Other" => ST::Other, "M1" => ST::M1, _ => return None };
         let op = match *o {
           "get" => TypedOp::Get, "get_mut" => TypedOp::GetMut, "set" => TypedOp::Set(bit(v)?), "get_boxed" => TypedOp::GetBoxed,
@@ -289,7 +300,7 @@ impl Model {
     match op {
       Op::Map { kt, key, route, op: mop, .. } => {
         let m = self.ensure_map(kt);
-        let k = key as usize;
+        let k = (key % 2) as usize; // logical key (for `O` the key index also carries the constructor)
         let ret = match mop {
           MapOp::Insert(v) => { let prev = m[k]; m[k] = Some(v); opt_code(prev) }
           MapOp::Remove => { let prev = m[k]; m[k] = None; opt_code(prev) }
@@ -306,7 +317,7 @@ impl Model {
         }
       }
       Op::Read { kt, key, route, .. } => {
-        let v = opt_code(self.ensure_map(kt)[key as usize]);
+        let v = opt_code(self.ensure_map(kt)[(key % 2) as usize]);
         match route {
           RRoute::CtxRead => { obs.push(("read", v)); obs.push(("stamp_reader", v)); obs.push(("tracker_read_stamp", v)); }
           RRoute::TaskWriterGet => { obs.push(("writer_get", v)); obs.push(("writer_get_mut", v)); }
@@ -389,6 +400,32 @@ pub fn alphabet(tier: Tier) -> Vec<Op> {
   ops
 }
 
+/// Operation alphabet of the family that exercises the trait-object key type `MapKeyObjToObj`: every key index
+/// (logical key x public constructor) through every write and read route. Bystander: one key of K1.
+pub fn alphabet_objkeys(_tier: Tier) -> Vec<Op> {
+  let mut ops = Vec::new();
+  let kt = KT::O;
+  for key in 0..kt.n_keys() {
+    for route in [WRoute::CtxWrite, WRoute::CreateWriter, WRoute::GlobalMap, WRoute::ResWrite] {
+      let in_task = matches!(route, WRoute::CtxWrite | WRoute::CreateWriter);
+      for &bottom_up in if in_task { &[false, true][..] } else { &[false][..] } {
+        for op in [MapOp::Insert(0), MapOp::Insert(1), MapOp::Remove, MapOp::OrInsert(0), MapOp::OrInsert(1)] {
+          ops.push(Op::Map { kt, key, route, bottom_up, op });
+        }
+      }
+    }
+    for route in [RRoute::CtxRead, RRoute::TaskWriterGet, RRoute::GlobalMap, RRoute::GlobalMapMut, RRoute::ResRead, RRoute::ResWrite, RRoute::Stamp, RRoute::Check] {
+      let in_task = matches!(route, RRoute::CtxRead | RRoute::TaskWriterGet);
+      for &bottom_up in if in_task { &[false, true][..] } else { &[false][..] } {
+        ops.push(Op::Read { kt, key, route, bottom_up });
+      }
+    }
+  }
+  ops.push(Op::Map { kt: KT::K1, key: 0, route: WRoute::GlobalMap, bottom_up: false, op: MapOp::Insert(1) });
+  ops.push(Op::Read { kt: KT::K1, key: 0, route: RRoute::GlobalMap, bottom_up: false });
+  ops
+}
+
 /// Operation alphabet of the family that exercises the twin key types T1/T2 (two distinct types with the same
 /// `type_name`): the full map and typed-state alphabet on both, plus one key of K1 and `Shared` on RA as bystanders.
 pub fn alphabet_twins(_tier: Tier) -> Vec<Op> {
@@ -445,9 +482,12 @@ impl MapKey for K2 { type Value = u8; }
 impl MapKey for K3 { type Value = String; }
 impl MapKey for Tick { type Value = u32; }
 
-pub trait KeyT: MapKey<Value: Clone + Eq + Debug> + Copy {
+pub trait KeyT: MapKey<Value: Clone + Eq + Debug> + Clone {
   const KT: KT;
+  /// Builds the key with index `key` (`key % 2` = logical key; for `O`, `key / 2` = constructor).
   fn mk(key: u8) -> Self;
+  /// Keys that are never written by any operation: they must always read as absent.
+  fn foreign_keys() -> Vec<(&'static str, Self)> { Vec::new() }
   fn val(v: u8) -> Self::Value;
   /// Value index of a stored value; 999 for a value outside the alphabet.
   fn unval(v: &Self::Value) -> i16;
@@ -476,12 +516,108 @@ impl KeyT for K3 {
   fn stamps(s: &mut Stamps) -> &mut [Vec<Option<String>>; 2] { &mut s.k3 }
 }
 
+/// Number of public ways to construct a `MapKeyObjToObj` that the alphabet uses.
+pub const N_OBJ_CTORS: u8 = 6;
+const OBJ_CTOR_NAMES: [&str; N_OBJ_CTORS as usize] = [
+  "MapKeyObjToObj::from(k) [inherent]", "MapKeyObjToObj::new(Box::new(k))", "Box::new(k).into() [From<Box<K>>]",
+  "(Box::new(k) as Box<dyn KeyObj>).into() [From<Box<dyn KeyObj>>]", "MapKeyObjToObj(Box::new(k)) [tuple field]", "MapKeyObjToObj::from(k).clone()",
+];
+/// The two logical keys of `O`: key type `u8` with value 7, and the genuinely boxed key type `Box<u8>` with value 7.
+const OBJ_LOGICAL_NAMES: [&str; 2] = ["7u8", "Box::new(7u8)"];
+
+fn obj_key<T: Clone + Eq + std::hash::Hash + Any + Debug>(k: T, ctor: u8) -> MapKeyObjToObj {
+  match ctor {
+    0 => MapKeyObjToObj::from(k),
+    1 => MapKeyObjToObj::new(Box::new(k)),
+    2 => Box::new(k).into(),
+    3 => (Box::new(k) as Box<dyn KeyObj>).into(),
+    4 => MapKeyObjToObj(Box::new(k)),
+    5 => MapKeyObjToObj::from(k).clone(),
+    _ => engine_error("C14: unknown MapKeyObjToObj constructor index"),
+  }
+}
+
+/// `O` = the trait-object key type `MapKeyObjToObj` (values are `Box<dyn MapValueObj>` holding a `u8`).
+impl KeyT for MapKeyObjToObj {
+  const KT: KT = KT::O;
+  fn mk(key: u8) -> Self {
+    if key % 2 == 0 { obj_key(7u8, key / 2) } else { obj_key(Box::new(7u8), key / 2) }
+  }
+  fn val(v: u8) -> Box<dyn MapValueObj> { Box::new(v) }
+  fn unval(v: &Box<dyn MapValueObj>) -> i16 {
+    match (**v).as_any().downcast_ref::<u8>() { Some(v) if *v <= 1 => *v as i16, _ => 999 }
+  }
+  fn stamps(s: &mut Stamps) -> &mut [Vec<Option<Box<dyn MapValueObj>>>; 2] { &mut s.o }
+  fn foreign_keys() -> Vec<(&'static str, Self)> {
+    vec![
+      ("from(8u8) [other value]", MapKeyObjToObj::from(8u8)),
+      ("Box::new(8u8).into() [other value]", Box::new(8u8).into()),
+      ("from(7u16) [other type, same value]", MapKeyObjToObj::from(7u16)),
+      ("Box::new(7u16).into() [other type, same value]", Box::new(7u16).into()),
+      ("from(7i8) [other type, same value]", MapKeyObjToObj::from(7i8)),
+      ("from(Box::new(Box::new(7u8))) [doubly boxed key type]", MapKeyObjToObj::from(Box::new(Box::new(7u8)))),
+      ("from(Box::new(7u8) as Box<dyn KeyObj>) [key type Box<dyn KeyObj>]", MapKeyObjToObj::from(Box::new(7u8) as Box<dyn KeyObj>)),
+      ("from((7u8,)) [tuple key type]", MapKeyObjToObj::from((7u8,))),
+    ]
+  }
+}
+
+/// Readable name of key index `key` of key type `kt`.
+pub fn key_label(kt: KT, key: u8) -> String {
+  if kt == KT::O {
+    format!("key#{} = {} built by {}", key, OBJ_LOGICAL_NAMES[(key % 2) as usize], OBJ_CTOR_NAMES[((key / 2) % N_OBJ_CTORS) as usize])
+  } else {
+    format!("{}({})", kt.name(), key)
+  }
+}
+
+fn hash_of<T: std::hash::Hash>(t: &T) -> u64 {
+  use std::hash::Hasher;
+  let mut h = std::collections::hash_map::DefaultHasher::new();
+  t.hash(&mut h);
+  h.finish()
+}
+
+/// Identity of `MapKeyObjToObj` keys: keys built from equal (key type, value) by different public constructors are
+/// equal and hash equal; keys of different key types or values are unequal. Returns (failures, comparisons).
+pub fn obj_key_identity_failures() -> (Vec<String>, u64) {
+  let mut failures = Vec::new();
+  let mut n = 0u64;
+  let keys: Vec<(u8, MapKeyObjToObj)> = (0..KT::O.n_keys()).map(|i| (i, MapKeyObjToObj::mk(i))).collect();
+  for (i, a) in &keys {
+    for (j, b) in &keys {
+      let same = i % 2 == j % 2;
+      n += 2;
+      if (a == b) != same {
+        failures.push(format!("[{}] == [{}] is {}, expected {}", key_label(KT::O, *i), key_label(KT::O, *j), a == b, same));
+      }
+      if same && hash_of(a) != hash_of(b) {
+        failures.push(format!("[{}] and [{}] denote the same key but hash differently", key_label(KT::O, *i), key_label(KT::O, *j)));
+      }
+      // the same through the object-safe key proxy pie's store uses
+      n += 1;
+      let (da, db): (&dyn KeyObj, &dyn KeyObj) = (a, b);
+      if (da == db) != same {
+        failures.push(format!("as dyn KeyObj: [{}] == [{}] is {}, expected {}", key_label(KT::O, *i), key_label(KT::O, *j), da == db, same));
+      }
+    }
+    for (what, f) in MapKeyObjToObj::foreign_keys() {
+      n += 1;
+      if *a == f || f == *a {
+        failures.push(format!("[{}] equals the key {} of another key type or value", key_label(KT::O, *i), what));
+      }
+    }
+  }
+  (failures, n)
+}
+
 /// Real stamps recorded along a path, per key type and key (distinct values only).
 #[derive(Default)]
 pub struct Stamps {
   k1: [Vec<Option<u8>>; 2],
   k2: [Vec<Option<u8>>; 2],
   k3: [Vec<Option<String>>; 2],
+  o: [Vec<Option<Box<dyn MapValueObj>>>; 2],
   t1: [Vec<Option<u8>>; 2],
   t2: [Vec<Option<u8>>; 2],
 }
@@ -568,6 +704,7 @@ fn describe<W: Twins>(any: &dyn Any) -> Desc {
   if let Some(m) = any.downcast_ref::<HashMap<K3, String>>() { return map_entries::<K3>(m).map_or(Desc::Unknown, |e| Desc::Slot(Slot::Map(KT::K3, e))); }
   if let Some(m) = any.downcast_ref::<HashMap<W::A, u8>>() { return map_entries::<W::A>(m).map_or(Desc::Unknown, |e| Desc::Slot(Slot::Map(KT::T1, e))); }
   if let Some(m) = any.downcast_ref::<HashMap<W::B, u8>>() { return map_entries::<W::B>(m).map_or(Desc::Unknown, |e| Desc::Slot(Slot::Map(KT::T2, e))); }
+  if let Some(m) = any.downcast_ref::<HashMap<MapKeyObjToObj, Box<dyn MapValueObj>>>() { return map_entries::<MapKeyObjToObj>(m).map_or(Desc::Unknown, |e| Desc::Slot(Slot::Map(KT::O, e))); }
   if let Some(m) = any.downcast_ref::<HashMap<Tick, u32>>() { return Desc::TickMap(m.get(&Tick).copied(), m.len()); }
   Desc::Unknown
 }
@@ -576,8 +713,8 @@ fn describe_res<W: Twins, R: Resource>(pie: &Pie<Rec>) -> Desc {
   match pie.resource_state::<R>().get_boxed() { None => Desc::Slot(Slot::Absent), Some(b) => describe::<W>(&**b) }
 }
 
-/// `get::<S>` for all seven state types on resource type `R`: [Shared, Other, Map<K1>, Map<K2>, Map<K3>, Map<T1>, Map<T2>].
-fn typed_gets<W: Twins, R: Resource>(pie: &Pie<Rec>) -> [i16; 7] {
+/// `get::<S>` for all eight state types on resource type `R`: [Shared, Other, Map<K1>, Map<K2>, Map<K3>, Map<T1>, Map<T2>, Map<O>].
+fn typed_gets<W: Twins, R: Resource>(pie: &Pie<Rec>) -> [i16; 8] {
   let s = pie.resource_state::<R>();
   [
     s.get::<Shared>().map_or(-1, |x| x.code()),
@@ -587,11 +724,12 @@ fn typed_gets<W: Twins, R: Resource>(pie: &Pie<Rec>) -> [i16; 7] {
     s.get::<HashMap<K3, String>>().map_or(-1, map_code::<K3>),
     s.get::<HashMap<W::A, u8>>().map_or(-1, map_code::<W::A>),
     s.get::<HashMap<W::B, u8>>().map_or(-1, map_code::<W::B>),
+    s.get::<HashMap<MapKeyObjToObj, Box<dyn MapValueObj>>>().map_or(-1, map_code::<MapKeyObjToObj>),
   ]
 }
 
-fn expected_typed_gets(slot: Slot) -> [i16; 7] {
-  let mut e = [-1i16; 7];
+fn expected_typed_gets(slot: Slot) -> [i16; 8] {
+  let mut e = [-1i16; 8];
   match slot {
     Slot::Absent => {}
     Slot::Shared(_) => e[0] = slot.code(),
@@ -727,11 +865,11 @@ impl<K: KeyT> Task for KeyTask<K> {
     let mut obs: Obs = Vec::new();
     let tick = context.read(&Tick, MapEqualsChecker).unwrap().copied();
     obs.push(("tick", tick.map_or(-1, |t| t as i16)));
-    let me = (K::KT, if self.0 == K::mk(1) { 1u8 } else { 0u8 });
+    let me = (K::KT, if self.0 == K::mk(1) { 1u8 } else { 0u8 }); // logical key
     if ADDR.with(|a| a.get()) == Some(me) { EXECS.with(|e| e.set(e.get() + 1)); }
     let cmd = CMD.with(|c| {
       let mut c = c.borrow_mut();
-      match *c { Some(cmd) if (cmd.kt, cmd.key) == me => c.take(), _ => None }
+      match *c { Some(cmd) if (cmd.kt, cmd.key % 2) == me => c.take(), _ => None }
     });
     let Some(cmd) = cmd else { return obs; };
     match cmd.what {
@@ -779,7 +917,7 @@ fn decode_stamp_dbg<K: KeyT>(s: &str) -> i16 {
 
 fn run_task<K: KeyT>(pie: &mut Pie<Rec>, key: u8, what: What, bottom_up: bool) -> Obs {
   CMD.with(|c| *c.borrow_mut() = Some(Cmd { kt: K::KT, key, what }));
-  ADDR.with(|a| a.set(Some((K::KT, key))));
+  ADDR.with(|a| a.set(Some((K::KT, key % 2))));
   EXECS.with(|e| e.set(0));
   pie.tracker_mut().events.clear();
   let task = KeyTask(K::mk(key));
@@ -821,7 +959,7 @@ fn exec_map<K: KeyT>(pie: &mut Pie<Rec>, key: u8, route: WRoute, bottom_up: bool
     WRoute::CreateWriter => run_task::<K>(pie, key, What::Write { create_writer: true, op }, bottom_up),
     WRoute::GlobalMap => {
       let m = GetGlobalMap::<K>::get_global_map_mut(pie.resource_state_mut::<K>());
-      let ret = hashmap_apply::<K>(m, k, op);
+      let ret = hashmap_apply::<K>(m, k.clone(), op);
       vec![("ret", ret), ("after_get", code::<K>(m.get(&k)))]
     }
     WRoute::ResWrite => {
@@ -906,6 +1044,7 @@ fn exec_op<W: Twins>(pie: &mut Pie<Rec>, op: Op) -> Obs {
       KT::K3 => exec_map::<K3>(pie, key, route, bottom_up, op),
       KT::T1 => exec_map::<W::A>(pie, key, route, bottom_up, op),
       KT::T2 => exec_map::<W::B>(pie, key, route, bottom_up, op),
+      KT::O => exec_map::<MapKeyObjToObj>(pie, key, route, bottom_up, op),
     },
     Op::Read { kt, key, route, bottom_up } => match kt {
       KT::K1 => exec_read::<K1>(pie, key, route, bottom_up),
@@ -913,6 +1052,7 @@ fn exec_op<W: Twins>(pie: &mut Pie<Rec>, op: Op) -> Obs {
       KT::K3 => exec_read::<K3>(pie, key, route, bottom_up),
       KT::T1 => exec_read::<W::A>(pie, key, route, bottom_up),
       KT::T2 => exec_read::<W::B>(pie, key, route, bottom_up),
+      KT::O => exec_read::<MapKeyObjToObj>(pie, key, route, bottom_up),
     },
     Op::Typed { res, st, op } => {
       macro_rules! by_st {
@@ -920,7 +1060,7 @@ fn exec_op<W: Twins>(pie: &mut Pie<Rec>, op: Op) -> Obs {
       }
       match res {
         Res::K1 => by_st!(K1), Res::K2 => by_st!(K2), Res::K3 => by_st!(K3), Res::RA => by_st!(RA), Res::RB => by_st!(RB),
-        Res::T1 => by_st!(W::A), Res::T2 => by_st!(W::B),
+        Res::T1 => by_st!(W::A), Res::T2 => by_st!(W::B), Res::O => by_st!(MapKeyObjToObj),
       }
     }
   }
@@ -961,7 +1101,7 @@ macro_rules! with_kt {
   ($kt:expr, $f:ident, $($arg:expr),*) => {
     match $kt {
       KT::K1 => $f::<K1>($($arg),*), KT::K2 => $f::<K2>($($arg),*), KT::K3 => $f::<K3>($($arg),*),
-      KT::T1 => $f::<W::A>($($arg),*), KT::T2 => $f::<W::B>($($arg),*),
+      KT::T1 => $f::<W::A>($($arg),*), KT::T2 => $f::<W::B>($($arg),*), KT::O => $f::<MapKeyObjToObj>($($arg),*),
     }
   };
 }
@@ -990,9 +1130,13 @@ impl Judge<'_> {
 
 /// Full observation of the global map of `K` (only called when the model says the state of `K` is that map).
 fn observe_map<K: KeyT>(pie: &mut Pie<Rec>, m: [Option<u8>; 2], stamps: &mut Stamps, j: &mut Judge) {
-  for key in 0..2u8 {
+  // All key indices: for `O` every logical key is addressed through every constructor, so a value written through one
+  // form of the key is read, stamped and checked through every other form (and stamps taken through one form are
+  // checked through the others, via the stamps recorded below).
+  for key in 0..K::KT.n_keys() {
     let k = K::mk(key);
-    let want = opt_code(m[key as usize]);
+    let slot = (key % 2) as usize;
+    let want = opt_code(m[slot]);
     let s_state = ResourceChecker::<K>::stamp(&MapEqualsChecker, &k, pie.resource_state_mut::<K>()).unwrap();
     let (read_value, s_reader) = {
       let mut reader = Resource::read(&k, pie.resource_state_mut::<K>()).unwrap();
@@ -1005,24 +1149,36 @@ fn observe_map<K: KeyT>(pie: &mut Pie<Rec>, m: [Option<u8>; 2], stamps: &mut Sta
       (v, ResourceChecker::<K>::stamp_writer(&MapEqualsChecker, &k, w).unwrap())
     };
     let global_value = code::<K>(GetGlobalMap::<K>::get_global_map(pie.resource_state_mut::<K>()).get(&k));
-    j.eq("C14/read-your-writes", &|| format!("{}:{:?} read through Resource::read", K::KT.name(), k), read_value, want);
-    j.eq("C14/read-your-writes", &|| format!("{}:{:?} read through MapWriter::get", K::KT.name(), k), writer_value, want);
-    j.eq("C14/read-your-writes", &|| format!("{}:{:?} read through GetGlobalMap", K::KT.name(), k), global_value, want);
-    j.eq("C14/stamp-routes", &|| format!("{}:{:?} stamp(state)", K::KT.name(), k), code::<K>(s_state.as_ref()), want);
-    j.eq("C14/stamp-routes", &|| format!("{}:{:?} stamp_reader", K::KT.name(), k), code::<K>(s_reader.as_ref()), want);
-    j.eq("C14/stamp-routes", &|| format!("{}:{:?} stamp_writer", K::KT.name(), k), code::<K>(s_writer.as_ref()), want);
-    j.eq("C14/stamp-routes", &|| format!("{}:{:?} stamp(state) vs stamp_reader", K::KT.name(), k), &s_state, &s_reader);
-    j.eq("C14/stamp-routes", &|| format!("{}:{:?} stamp(state) vs stamp_writer", K::KT.name(), k), &s_state, &s_writer);
+    j.eq("C14/read-your-writes", &|| format!("{}:{} read through Resource::read", K::KT.name(), key_label(K::KT, key)), read_value, want);
+    j.eq("C14/read-your-writes", &|| format!("{}:{} read through MapWriter::get", K::KT.name(), key_label(K::KT, key)), writer_value, want);
+    j.eq("C14/read-your-writes", &|| format!("{}:{} read through GetGlobalMap", K::KT.name(), key_label(K::KT, key)), global_value, want);
+    j.eq("C14/stamp-routes", &|| format!("{}:{} stamp(state)", K::KT.name(), key_label(K::KT, key)), code::<K>(s_state.as_ref()), want);
+    j.eq("C14/stamp-routes", &|| format!("{}:{} stamp_reader", K::KT.name(), key_label(K::KT, key)), code::<K>(s_reader.as_ref()), want);
+    j.eq("C14/stamp-routes", &|| format!("{}:{} stamp_writer", K::KT.name(), key_label(K::KT, key)), code::<K>(s_writer.as_ref()), want);
+    j.eq("C14/stamp-routes", &|| format!("{}:{} stamp(state) vs stamp_reader", K::KT.name(), key_label(K::KT, key)), &s_state, &s_reader);
+    j.eq("C14/stamp-routes", &|| format!("{}:{} stamp(state) vs stamp_writer", K::KT.name(), key_label(K::KT, key)), &s_state, &s_writer);
     // Check against every stamp value of the alphabet and every real stamp recorded earlier on this path.
     let mut candidates: Vec<Option<K::Value>> = vec![None, Some(K::val(0)), Some(K::val(1))];
-    candidates.extend(K::stamps(stamps)[key as usize].iter().cloned());
+    candidates.extend(K::stamps(stamps)[slot].iter().cloned());
     for s in &candidates {
       let consistent = ResourceChecker::<K>::check(&MapEqualsChecker, &k, pie.resource_state_mut::<K>(), s).unwrap().is_none();
-      j.eq("C14/check", &|| format!("{}:{:?} check against stamp {:?} consistent?", K::KT.name(), k, s), consistent, code::<K>(s.as_ref()) == want);
+      j.eq("C14/check", &|| format!("{}:{} check against stamp {:?} consistent?", K::KT.name(), key_label(K::KT, key), s), consistent, code::<K>(s.as_ref()) == want);
     }
-    for s in [s_state, s_reader, s_writer] { push_distinct(&mut K::stamps(stamps)[key as usize], s); }
+    for s in [s_state, s_reader, s_writer] { push_distinct(&mut K::stamps(stamps)[slot], s); }
+  }
+  // Keys of other types or values are never written: they must read as absent and stamp as absent.
+  for (what, k) in K::foreign_keys() {
+    let read_value = code::<K>(Resource::read(&k, pie.resource_state_mut::<K>()).unwrap());
+    let stamp = ResourceChecker::<K>::stamp(&MapEqualsChecker, &k, pie.resource_state_mut::<K>()).unwrap();
+    let none: Option<K::Value> = None;
+    let consistent = ResourceChecker::<K>::check(&MapEqualsChecker, &k, pie.resource_state_mut::<K>(), &none).unwrap().is_none();
+    j.eq("C14/key-aliasing", &|| format!("{}: never-written key {} read through Resource::read", K::KT.name(), what), read_value, -1);
+    j.eq("C14/key-aliasing", &|| format!("{}: never-written key {} stamp(state)", K::KT.name(), what), code::<K>(stamp.as_ref()), -1);
+    j.eq("C14/key-aliasing", &|| format!("{}: never-written key {} check against the stamp of absence consistent?", K::KT.name(), what), consistent, true);
   }
 }
+
+
 
 /// Side-effect free comparison of the whole typed state with the model.
 fn observe_snapshot<W: Twins>(pie: &Pie<Rec>, model: &Model, tick: u32, typed: bool, j: &mut Judge) {
@@ -1031,7 +1187,7 @@ fn observe_snapshot<W: Twins>(pie: &Pie<Rec>, model: &Model, tick: u32, typed: b
       let slot = model.slots[$res.idx()];
       j.eq("C14/state-isolation", &|| format!("boxed state of resource type {}", $res.name()), describe_res::<W, $r>(pie), Desc::Slot(slot));
       if typed {
-        j.eq("C14/state-isolation", &|| format!("get::<S>() for S in [Shared, Other, Map<K1>, Map<K2>, Map<K3>, Map<T1>, Map<T2>] on resource type {}", $res.name()),
+        j.eq("C14/state-isolation", &|| format!("get::<S>() for S in [Shared, Other, Map<K1>, Map<K2>, Map<K3>, Map<T1>, Map<T2>, Map<O>] on resource type {}", $res.name()),
           typed_gets::<W, $r>(pie), expected_typed_gets(slot));
       }
     }};
@@ -1043,6 +1199,7 @@ fn observe_snapshot<W: Twins>(pie: &Pie<Rec>, model: &Model, tick: u32, typed: b
   one!(RB, Res::RB);
   one!(W::A, Res::T1);
   one!(W::B, Res::T2);
+  one!(MapKeyObjToObj, Res::O);
   j.eq("C14/state-isolation", &|| "boxed state of the harness resource type Tick".to_string(), describe_res::<W, Tick>(pie), Desc::TickMap(Some(tick), 1));
 }
 
@@ -1328,6 +1485,7 @@ fn sample_scripts() -> Vec<Vec<&'static str>> {
     vec!["map:K1:1:global_map:-:or_insert:1", "typed:K1:Other:set:1", "typed:K1:Shared:get:-", "read:K1:1:global_map:-", "typed:K1:Other:get:-"],
     vec!["typed:RA:Shared:set:1", "typed:RB:Shared:get:-", "typed:RB:Other:get_or_set_default_mut:-", "typed:RA:Other:get:-", "typed:RA:Shared:get_mut:-", "typed:RB:Shared:get_or_set_default:-"],
     vec!["map:T1:0:ctx_write:td:insert:1", "read:T2:0:ctx_read:td", "map:T2:0:global_map:-:insert:0", "read:T1:0:res_read:-", "typed:T1:Shared:set:1", "typed:T2:Shared:get:-", "typed:T2:Shared:get_or_set_default:-", "read:T1:0:global_map:-"],
+    vec!["map:O:4:ctx_write:td:insert:1", "read:O:0:ctx_read:td", "read:O:1:global_map:-", "map:O:3:global_map:-:insert:0", "read:O:5:res_read:-", "map:O:6:create_writer:bu:remove:-", "read:O:10:stamp:-", "read:O:2:check:-"],
     vec!["map:K2:1:res_write:-:insert:1", "map:K1:1:create_writer:td:or_insert:0", "read:K2:1:task_writer_get:td", "map:K2:1:ctx_write:td:remove:-", "read:K2:1:check:-"],
   ]
 }
@@ -1336,6 +1494,19 @@ fn run_replay(args: &Args, path: &std::path::Path) -> i32 {
   let text = std::fs::read_to_string(path).unwrap_or_else(|e| engine_error(&format!("cannot read replay file {}: {}", path.display(), e)));
   let v: Value = serde_json::from_str(&text).unwrap_or_else(|e| engine_error(&format!("replay file does not parse: {}", e)));
   let r = v.get("replay").unwrap_or(&v);
+  if r.get("key_identity_check").and_then(|b| b.as_bool()) == Some(true) {
+    let (a, _) = obj_key_identity_failures();
+    let (b, _) = obj_key_identity_failures();
+    if a != b { engine_error("C14 replay: two evaluations of the key identity check differ"); }
+    if a.is_empty() {
+      println!("replay: no violation");
+      return 0;
+    }
+    for f in &a { println!("replay: still failing: C14/key-identity {}", f); }
+    println!("VIOLATION property=C14 replay={}", path.display());
+    println!("  oracle=C14/key-identity key= what={}", a[0]);
+    return 1;
+  }
   let list = r.get("ops").and_then(|o| o.as_array()).unwrap_or_else(|| engine_error("replay object lacks array 'ops'"));
   let ops: Vec<Op> = list.iter().map(|s| {
     let s = s.as_str().unwrap_or_else(|| engine_error("replay 'ops' must be strings"));
@@ -1369,20 +1540,29 @@ pub fn run(args: &Args) -> i32 {
   if !twins.type_ids_differ { engine_error("C14: the two twin key types have the same TypeId (they must be distinct types)"); }
   let (budget_s, enum_depth) = match args.tier { Tier::Quick => (14.0, 2), Tier::Thorough => (540.0, 3) };
   let enum_depth = std::env::var("VERIF_C14_ENUM_DEPTH").ok().and_then(|s| s.parse().ok()).unwrap_or(enum_depth);
-  // Two searches with different alphabets (the state space is their sum, not their product): isolation failures are
+  // Searches with different alphabets (the state space is their sum, not their product): isolation failures are
   // pairwise between resource types, and every pair of kinds of resource types occurs in one of the two.
   let start = Instant::now();
-  let families: Vec<(&'static str, &'static str, Vec<Op>)> = vec![
-    ("twins", "T1, T2 = two distinct key types with identical std::any::type_name (full map and typed-state alphabet), plus one key of K1 and Shared on RA", alphabet_twins(args.tier)),
-    ("main", "K1, K2 (+K3 thorough) maps; typed state on RA, RB, K1", alphabet(args.tier)),
+  let (identity_failures, identity_comparisons) = obj_key_identity_failures();
+  for f in &identity_failures {
+    rep.violation(Violation {
+      property: "C14".into(), oracle: "C14/key-identity".into(), key: String::new(),
+      what: format!("MapKeyObjToObj keys: {}", f),
+      replay: json!({"key_identity_check": true, "failure": f}),
+    });
+  }
+  let families: Vec<(&'static str, &'static str, Vec<Op>, usize)> = vec![
+    ("objkeys", "O = MapKeyObjToObj (trait-object keys): two logical keys of different key types (7u8 and the genuinely boxed Box::new(7u8)), each addressed through 6 public constructors (inherent from, new, From<Box<K>>, From<Box<dyn KeyObj>>, tuple field, clone), all write/read routes; 8 never-written keys of other types/values probed every step; plus one key of K1", alphabet_objkeys(args.tier), 2),
+    ("twins", "T1, T2 = two distinct key types with identical std::any::type_name (full map and typed-state alphabet), plus one key of K1 and Shared on RA", alphabet_twins(args.tier), usize::MAX),
+    ("main", "K1, K2 (+K3 thorough) maps; typed state on RA, RB, K1", alphabet(args.tier), usize::MAX),
   ];
   let mut outs: Vec<SearchOut> = Vec::new();
-  for (name, _, ops) in &families {
+  for (name, _, ops, max_enum_depth) in &families {
     for (i, op) in ops.iter().enumerate() {
       if Op::parse(&op.text()) != Some(*op) { engine_error(&format!("C14: operation {} ({}) of family {} does not round-trip through its text form", i, op.text(), name)); }
     }
     let remaining = (budget_s - start.elapsed().as_secs_f64()).max(0.5);
-    outs.push(with_quiet_panics(|| search(args.tier, ops, remaining, enum_depth)));
+    outs.push(with_quiet_panics(|| search(args.tier, ops, remaining, enum_depth.min(*max_enum_depth))));
   }
 
   // Samples: scripted paths plus the representative path of the last state discovered in each family.
@@ -1393,7 +1573,7 @@ pub fn run(args: &Args) -> i32 {
       let o = run_path(&path, true);
       samples.push(json!({"kind": "scripted", "steps": o.trace, "failures": o.failures.iter().map(|f| f.what.clone()).collect::<Vec<_>>()}));
     }
-    for ((name, _, _), out) in families.iter().zip(&outs) {
+    for ((name, _, _, _), out) in families.iter().zip(&outs) {
       if !out.deepest_path.is_empty() {
         let o = run_path(&out.deepest_path, true);
         samples.push(json!({"kind": format!("representative path of the last state discovered by the BFS of family '{}'", name), "steps": o.trace}));
@@ -1409,7 +1589,8 @@ pub fn run(args: &Args) -> i32 {
   rep.set("paths_without_merging", json!(sum(&|o| o.enum_paths)));
   rep.set("traces_validated_against_impl", json!(sum(&|o| o.totals.steps)));
   rep.set("full_observation_steps", json!(sum(&|o| o.transitions + o.enum_paths)));
-  rep.set("evaluations", json!(sum(&|o| o.totals.evals)));
+  rep.set("evaluations", json!(sum(&|o| o.totals.evals) + identity_comparisons));
+  rep.set("key_identity_comparisons", json!(identity_comparisons));
   rep.set("distinct_nontrivial", json!(sum(&|o| o.nontrivial)));
   rep.set("distinct_nontrivial_rule", json!("distinct (model state, operation) pairs whose operation changes the model state (everything else is a self loop: a read, or a write of what is already there), summed over the two searches"));
   rep.set("distinct_outcomes", json!(sum(&|o| o.totals.outcomes.len() as u64)));
@@ -1417,7 +1598,7 @@ pub fn run(args: &Args) -> i32 {
   rep.set("samples", Value::Array(samples));
   rep.set("exhaustive", json!(fixed_point && enum_complete));
   rep.set("rule", json!(format!(
-    "two searches (families 'twins' and 'main', see bounds), each: BFS over model states (what pie's typed state holds for each of the resource types K1,K2,K3,RA,RB,T1,T2, global maps included) {}; every (state, op) executed on a fresh Pie by replaying the state's representative path; plus all op paths of length <= {} without state merging ({})",
+    "identity check of MapKeyObjToObj keys (all pairs of (logical key, public constructor): equal and hash-equal iff same (key type, value); unequal to 8 keys of other types/values) + three searches (families 'objkeys', 'twins' and 'main', see bounds), each: BFS over model states (what pie's typed state holds for each of the resource types K1,K2,K3,RA,RB,T1,T2,O, global maps included) {}; every (state, op) executed on a fresh Pie by replaying the state's representative path; after the last op every key index (for O: every constructor of every logical key) is read, stamped through three routes and checked against all stamps; plus all op paths of length <= {} (objkeys: <= 2) without state merging ({})",
     if fixed_point { "to a fixed point" } else { "stopped by the wall-time budget before the fixed point" }, enum_depth,
     if enum_complete { "complete" } else { "stopped by the wall-time budget" })));
   rep.set("twin_key_types", json!({
@@ -1427,12 +1608,15 @@ pub fn run(args: &Args) -> i32 {
             else { "the compiler gave the two block-local key types different type names: the same-name part of the alphabet is NOT exercised by this build (the family still runs, as two ordinary distinct key types)" },
   }));
   rep.set("bounds", json!({
-    "families": families.iter().zip(&outs).map(|((name, what, ops), o)| json!({
+    "families": families.iter().zip(&outs).map(|((name, what, ops, _), o)| json!({
       "family": name, "alphabet": what, "operations": ops.len(), "states": o.states, "transitions": o.transitions,
       "bfs_fixed_point": o.fixed_point, "bfs_depth": o.max_depth, "bfs_states_per_level": o.levels,
       "unmerged_path_depth": o.enum_depth, "unmerged_paths": o.enum_paths, "unmerged_paths_complete": o.enum_complete,
     })).collect::<Vec<_>>(),
-    "key_types": if args.tier == Tier::Thorough { json!(["K1(u8)->u8", "K2(u8)->u8", "K3(bool)->String", "T1(u8)->u8", "T2(u8)->u8"]) } else { json!(["K1(u8)->u8", "K2(u8)->u8", "T1(u8)->u8", "T2(u8)->u8"]) },
+    "key_types": if args.tier == Tier::Thorough { json!(["K1(u8)->u8", "K2(u8)->u8", "K3(bool)->String", "T1(u8)->u8", "T2(u8)->u8", "O=MapKeyObjToObj->Box<dyn MapValueObj>"]) } else { json!(["K1(u8)->u8", "K2(u8)->u8", "T1(u8)->u8", "T2(u8)->u8", "O=MapKeyObjToObj->Box<dyn MapValueObj>"]) },
+    "MapKeyObjToObj_constructors": OBJ_CTOR_NAMES, "MapKeyObjToObj_logical_keys": OBJ_LOGICAL_NAMES,
+    "MapKeyObjToObj_key_index": "key index = logical key + 2 * constructor",
+    "MapKeyObjToObj_never_written_keys": MapKeyObjToObj::foreign_keys().iter().map(|(w, _)| *w).collect::<Vec<_>>(),
     "keys_per_type": 2, "values_per_type": 2,
     "write_routes": ["Context::write", "Context::create_writer+written_to", "resource_state_mut().get_global_map_mut()", "Resource::write(state) MapWriter outside a task"],
     "map_ops": ["insert", "remove via entry()", "entry().or_insert"],
@@ -1440,12 +1624,12 @@ pub fn run(args: &Args) -> i32 {
     "session_modes_for_in_task_routes": ["top-down", "bottom-up"],
     "typed_state": {"resource_types": ["RA", "RB", "K1", "T1", "T2"], "state_types": if args.tier == Tier::Thorough { json!(["Shared(u8)", "Other(bool)", "HashMap<K1,u8> (on RA and K1)"]) } else { json!(["Shared(u8)", "Other(bool)"]) },
       "ops": ["get", "get_mut", "set", "get_boxed", "get_boxed_mut", "set_boxed", "get_or_set_default", "get_or_set_default_mut"]},
-    "observed_every_step": "boxed state + get::<S> for 7 state types on all 7 resource types (K1,K2,K3,RA,RB,T1,T2) and the harness type Tick",
+    "observed_every_step": "boxed state + get::<S> for 8 state types on all 8 resource types (K1,K2,K3,RA,RB,T1,T2,O) and the harness type Tick",
     "wall_budget_s": budget_s, "threads": n_threads(),
   }));
   rep.assume("One task identity per (key type, key) performs all in-task accesses of that key, so pie's overlapping-write / hidden-dependency detection (not part of C14) is never triggered.");
   rep.assume("Model state excludes pie's dependency store; the BFS uses one representative path per model state, complemented by all unmerged paths up to the stated depth.");
-  rep.assume("The product of the two operation families is not explored: interference between resource types is pairwise, and every pair of kinds (map key/map key incl. same-named, map key/plain resource, plain/plain) occurs within one family.");
+  rep.assume("The product of the two operation families is not explored: interference between resource types is pairwise, and every pair of kinds (map key/map key incl. same-named, trait-object key/typed key, map key/plain resource, plain/plain) occurs within one family.");
 
   let mut engine_failures = Vec::new();
   for f in outs.iter().flat_map(|o| o.found.iter()) {
@@ -1540,18 +1724,19 @@ mod tests {
       for op in ops { assert_eq!(Op::parse(&op.text()), Some(op)); }
     }
     assert!(alphabet(Tier::Quick).len() < alphabet(Tier::Thorough).len());
-    let ops = alphabet_twins(Tier::Quick);
-    let set: BTreeSet<Op> = ops.iter().copied().collect();
-    assert_eq!(set.len(), ops.len());
-    for op in ops { assert_eq!(Op::parse(&op.text()), Some(op)); }
+    for ops in [alphabet_twins(Tier::Quick), alphabet_objkeys(Tier::Quick)] {
+      let set: BTreeSet<Op> = ops.iter().copied().collect();
+      assert_eq!(set.len(), ops.len());
+      for op in ops { assert_eq!(Op::parse(&op.text()), Some(op)); }
+    }
   }
 
   #[test]
   fn expected_typed_gets_positions() {
-    assert_eq!(expected_typed_gets(Slot::Absent), [-1; 7]);
-    assert_eq!(expected_typed_gets(Slot::Shared(1)), [1, -1, -1, -1, -1, -1, -1]);
-    assert_eq!(expected_typed_gets(Slot::Map(KT::K2, [Some(0), None])), [-1, -1, -1, 103, -1, -1, -1]);
-    assert_eq!(expected_typed_gets(Slot::Map(KT::T2, [None, Some(1)])), [-1, -1, -1, -1, -1, -1, 102]);
+    assert_eq!(expected_typed_gets(Slot::Absent), [-1; 8]);
+    assert_eq!(expected_typed_gets(Slot::Shared(1)), [1, -1, -1, -1, -1, -1, -1, -1]);
+    assert_eq!(expected_typed_gets(Slot::Map(KT::K2, [Some(0), None])), [-1, -1, -1, 103, -1, -1, -1, -1]);
+    assert_eq!(expected_typed_gets(Slot::Map(KT::T2, [None, Some(1)])), [-1, -1, -1, -1, -1, -1, 102, -1]);
   }
 
   #[test]
@@ -1560,6 +1745,26 @@ mod tests {
     assert!(t.type_ids_differ);
     // Identical type names are expected but not guaranteed by the language: only reported, never required.
     println!("twin type names: {} / {} (equal: {})", t.type_name_a, t.type_name_b, t.same_name());
+  }
+
+  #[test]
+  fn obj_key_identity_holds_and_labels() {
+    let (f, n) = obj_key_identity_failures();
+    assert!(f.is_empty(), "{:?}", f);
+    assert!(n > 0);
+    assert_eq!(KT::O.n_keys(), 12);
+    assert!(key_label(KT::O, 5).contains("Box::new(7u8)") && key_label(KT::O, 5).contains("From<Box<K>>"));
+  }
+
+  #[test]
+  fn model_obj_keys_address_slots_by_logical_key() {
+    let mut m = Model::initial();
+    m.apply(ins(KT::O, 4, 1), 1); // logical key 0 through constructor 2
+    assert_eq!(m.apply(read(KT::O, 0), 2), vec![("read", 1)]);
+    assert_eq!(m.apply(read(KT::O, 10), 3), vec![("read", 1)]);
+    assert_eq!(m.apply(read(KT::O, 1), 4), vec![("read", -1)]);
+    assert_eq!(m.apply(read(KT::O, 5), 5), vec![("read", -1)]);
+    assert_eq!(m.map_of(KT::O), Some([Some(1), None]));
   }
 
   #[test]
